@@ -66,7 +66,6 @@ quitmsg(void)
 	partner_fqdn = NULL;
 	free(rhost);
 	rhost = NULL;
-	free_smtproute_vals();
 }
 
 void
@@ -85,8 +84,8 @@ net_conn_shutdown(const enum conn_shutdown_type sd_type)
 
 		free(partner_fqdn);
 		free(rhost);
-		free_smtproute_vals();
 	}
+	free_smtproute_vals();
 
 #ifdef USESYSLOG
 	closelog();
